@@ -243,7 +243,10 @@ func (f *FibStrategyHashTable) FindNextHopsEnc(name enc.Name) []*FibNextHopEntry
 	for pfx := len(entry.name); pfx >= 0; pfx-- {
 		val, ok := f.realTable[prefixHash[pfx]]
 		if ok && len(val.nexthops) > 0 {
-			return val.nexthops
+			// Hand out a copy: the table's slice is modified in place by updates
+			nexthops := make([]*FibNextHopEntry, len(val.nexthops))
+			copy(nexthops, val.nexthops)
+			return nexthops
 		}
 	}
 
@@ -282,10 +285,10 @@ func (f *FibStrategyHashTable) InsertNextHopEnc(name enc.Name, nexthop uint64, c
 
 	realEntry := f.insertEntryEnc(name)
 
-	for _, existingNextHop := range realEntry.nexthops {
+	for i, existingNextHop := range realEntry.nexthops {
 		if existingNextHop.Nexthop == nexthop {
-			// Update existing hop
-			existingNextHop.Cost = cost
+			// Update existing hop (replace rather than modify: lookups hand out the old record)
+			realEntry.nexthops[i] = &FibNextHopEntry{Nexthop: nexthop, Cost: cost}
 			return
 		}
 	}
@@ -343,7 +346,7 @@ func (f *FibStrategyHashTable) GetAllFIBEntries() []FibStrategyEntry {
 	entries := make([]FibStrategyEntry, 0)
 	for _, v := range f.realTable {
 		if len(v.nexthops) > 0 {
-			entries = append(entries, v)
+			entries = append(entries, v.snapshot())
 		}
 	}
 
@@ -379,7 +382,7 @@ func (f *FibStrategyHashTable) GetAllForwardingStrategies() []FibStrategyEntry {
 	entries := make([]FibStrategyEntry, 0)
 	for _, v := range f.realTable {
 		if v.strategy != nil {
-			entries = append(entries, v)
+			entries = append(entries, v.snapshot())
 		}
 	}
 
